@@ -76,7 +76,8 @@ def state_digest(fr):
                 rng=copy.deepcopy(fr.rng.bit_generator.state), chi2_df=fr.chi2_df, dtype=str(fr.data.dtype))
 
 
-def make_prior(stg, g, prior, sub):
+def make_prior(stg, g, prior, sub, held=None):
+    """`held`: list that receives the arrays the caller got back while preparing the frame (the noise realisation)."""
     rng = np.random.default_rng(sub)
     if prior == 'float32':
         data = rng.chisquare(4, size=(g['tchans'], g['fchans'])).astype(np.float32) * 1e3
@@ -85,9 +86,11 @@ def make_prior(stg, g, prior, sub):
     fr = c01.make_frame(stg, g, seed=sub)
     if prior in ('chi2', 'signals'):
         if round(fr.df * fr.dt) >= 1:
-            fr.add_noise(x_mean=10.0)
+            nz = fr.add_noise(x_mean=10.0)
         else:
-            fr.add_noise(x_mean=10.0, x_std=1.0, noise_type='gaussian')
+            nz = fr.add_noise(x_mean=10.0, x_std=1.0, noise_type='gaussian')
+        if held is not None and isinstance(nz, np.ndarray):
+            held.append(nz)
     if prior == 'signals':
         fr.add_constant_signal(f_start=fr.get_frequency(g['fchans'] // 2), drift_rate=0.3 * fr.unit_drift_rate,
                                level=5.0, width=3 * fr.df, f_profile_type='gaussian')
@@ -147,10 +150,15 @@ def run_case(c, R):
     R.bucket('prior:' + c['prior'])
     if g['fchans'] > 65536:
         R.bucket('frame-wider-than-2^16-channels')
-    fr = make_prior(stg, g, c['prior'], c['sub'])
+    held = []
+    fr = make_prior(stg, g, c['prior'], c['sub'], held=held)
     start = fr.data.astype(np.float64).copy()
     rets = []
-    kept_returns = []
+    # arrays the library handed out earlier (the noise realisation, then every injected signal) are the caller's: later
+    # injections change the frame's data and nothing else
+    kept_returns = [(a_, a_.copy()) for a_ in held]
+    if held:
+        R.bucket('noise-realisation-held-across-the-injections')
     changed = False
     # a frame derived from this one BEFORE the injections must be left alone by them ("nothing else" includes other frames)
     sib = None
